@@ -260,7 +260,7 @@ def run_jobs(jobs, nproc=None, job_timeout=600):
             yield _run_job(p)
         return
     ctx = mp.get_context("fork")
-    with ctx.Pool(processes=min(nproc, len(payloads)), maxtasksperchild=64) as pool:
+    with ctx.Pool(processes=min(nproc, len(payloads)), maxtasksperchild=1) as pool:
         for r in pool.imap_unordered(_run_job, payloads, chunksize=1):
             yield r
 
